@@ -511,3 +511,155 @@ def fs_response_roundtrip(action: EnumOf(FilestoreActionCode), status: EnumOf(Fi
     requires(0 <= cut)
     requires(cut < len(raw))
     ensures("strict-prefix-refused", outcome(FileStoreResponseTlv.unpack, raw[0:cut]).raised(ValueError))
+
+
+# ------------------------------------------------------------------------------------------------ type-safety matrix
+# each concrete class K, each TLV type t != type(K), every value v: K.unpack(tlv(t, v) ++ suffix), K.from_tlv(CfdpTlv(t, v)) and
+# TlvHolder(CfdpTlv(t, v)).to_K() fail with the type-mismatch error (holder: or TypeError); nothing of kind K is returned
+
+def type_safety_clauses(o_unpack, o_from_tlv, o_holder):
+    ensures("unpack-mismatch", o_unpack.raised(TlvTypeMissmatch))
+    ensures("from_tlv-mismatch", o_from_tlv.raised(TlvTypeMissmatch))
+    ensures("holder-mismatch", o_holder.raised(TlvTypeMissmatch, TypeError))
+
+
+@obligation(["C08"], "type-safety/EntityIdTlv", verifies=[T + "EntityIdTlv.unpack", T + "EntityIdTlv.from_tlv", H + "TlvHolder.to_entity_id",
+                                                          B + "AbstractTlvBase.check_type"])
+def types_entity_id(t: EnumOf(TlvType), v: BytesLen(0, 255), suffix: Bytes):
+    requires(t != TlvType.ENTITY_ID)
+    type_safety_clauses(outcome(EntityIdTlv.unpack, tlv(t, v) + suffix), outcome(EntityIdTlv.from_tlv, CfdpTlv(t, v)),
+                        outcome(TlvHolder(CfdpTlv(t, v)).to_entity_id))
+
+
+@obligation(["C08"], "type-safety/FlowLabelTlv", verifies=[T + "FlowLabelTlv.unpack", T + "FlowLabelTlv.from_tlv", H + "TlvHolder.to_flow_label"])
+def types_flow_label(t: EnumOf(TlvType), v: BytesLen(0, 255), suffix: Bytes):
+    requires(t != TlvType.FLOW_LABEL)
+    type_safety_clauses(outcome(FlowLabelTlv.unpack, tlv(t, v) + suffix), outcome(FlowLabelTlv.from_tlv, CfdpTlv(t, v)),
+                        outcome(TlvHolder(CfdpTlv(t, v)).to_flow_label))
+
+
+@obligation(["C08"], "type-safety/MessageToUserTlv", verifies=[U + "MessageToUserTlv.unpack", U + "MessageToUserTlv.from_tlv",
+                                                               H + "TlvHolder.to_msg_to_user", B + "AbstractTlvBase.check_type"])
+def types_msg_to_user(t: EnumOf(TlvType), v: BytesLen(0, 255), suffix: Bytes):
+    requires(t != TlvType.MESSAGE_TO_USER)
+    type_safety_clauses(outcome(MessageToUserTlv.unpack, tlv(t, v) + suffix), outcome(MessageToUserTlv.from_tlv, CfdpTlv(t, v)),
+                        outcome(TlvHolder(CfdpTlv(t, v)).to_msg_to_user))
+
+
+@obligation(["C08"], "type-safety/FaultHandlerOverrideTlv", verifies=[T + "FaultHandlerOverrideTlv.unpack", T + "FaultHandlerOverrideTlv.from_tlv",
+                                                                      H + "TlvHolder.to_fault_handler_override", B + "AbstractTlvBase.check_type"])
+def types_fault_handler(t: EnumOf(TlvType), v: BytesLen(0, 255), suffix: Bytes):
+    requires(t != TlvType.FAULT_HANDLER)
+    type_safety_clauses(outcome(FaultHandlerOverrideTlv.unpack, tlv(t, v) + suffix), outcome(FaultHandlerOverrideTlv.from_tlv, CfdpTlv(t, v)),
+                        outcome(TlvHolder(CfdpTlv(t, v)).to_fault_handler_override))
+
+
+@obligation(["C08"], "type-safety/FileStoreRequestTlv", verifies=[T + "FileStoreRequestTlv.unpack", T + "FileStoreRequestTlv.from_tlv",
+                                                                  H + "TlvHolder.to_fs_request", T + "FileStoreRequestBase._check_raw_tlv_field"])
+def types_fs_request(t: EnumOf(TlvType), v: BytesLen(0, 255), suffix: Bytes):
+    requires(t != TlvType.FILESTORE_REQUEST)
+    type_safety_clauses(outcome(FileStoreRequestTlv.unpack, tlv(t, v) + suffix), outcome(FileStoreRequestTlv.from_tlv, CfdpTlv(t, v)),
+                        outcome(TlvHolder(CfdpTlv(t, v)).to_fs_request))
+
+
+@obligation(["C08"], "type-safety/FileStoreResponseTlv", verifies=[T + "FileStoreResponseTlv.unpack", T + "FileStoreResponseTlv.from_tlv",
+                                                                   H + "TlvHolder.to_fs_response", T + "FileStoreRequestBase._check_raw_tlv_field"])
+def types_fs_response(t: EnumOf(TlvType), v: BytesLen(0, 255), suffix: Bytes):
+    requires(t != TlvType.FILESTORE_RESPONSE)
+    type_safety_clauses(outcome(FileStoreResponseTlv.unpack, tlv(t, v) + suffix), outcome(FileStoreResponseTlv.from_tlv, CfdpTlv(t, v)),
+                        outcome(TlvHolder(CfdpTlv(t, v)).to_fs_response))
+
+
+# ------------------------------------------------------------------------------------------------ TlvHolder
+
+def concrete_tlv(k, v, name):
+    """an instance of the concrete class with type code k (built with the public constructors)"""
+    if k == 0:
+        return FileStoreRequestTlv(FilestoreActionCode.RENAME_FILE_SNP, name, name)
+    if k == 1:
+        return FileStoreResponseTlv(FilestoreActionCode.DELETE_FILE_SNN, FilestoreResponseStatusCode.DELETE_SUCCESS, name)
+    if k == 2:
+        return MessageToUserTlv(v)
+    if k == 4:
+        return FaultHandlerOverrideTlv(ConditionCode.FILE_SIZE_ERROR, FaultHandlerCode.ABANDON_TRANSACTION)
+    if k == 5:
+        return FlowLabelTlv(v)
+    return EntityIdTlv(v)
+
+
+def holder_cast_clauses(label, o, inst, same_kind):
+    """a holder of a concrete TLV object hands out that very object for its own kind and refuses every other kind"""
+    if same_kind:
+        ensures(label + "-own-kind", o.ok)
+        if o.ok:
+            ensures(label + "-same-object", is_same(o.value, inst))
+    else:
+        ensures(label + "-other-kind-refused", o.raised(TypeError, TlvTypeMissmatch))
+
+
+@obligation(["C08"], "TlvHolder/concrete", verifies=[H + "TlvHolder.to_fs_request", H + "TlvHolder.to_fs_response", H + "TlvHolder.to_msg_to_user",
+                                                     H + "TlvHolder.to_fault_handler_override", H + "TlvHolder.to_flow_label",
+                                                     H + "TlvHolder.to_entity_id", H + "TlvHolder.tlv_type"])
+def holder_concrete(k: Choice(0, 1, 2, 4, 5, 6), v: BytesLen(0, 255), name: StrLen(100)):
+    inst = concrete_tlv(k, v, name)
+    h = TlvHolder(inst)
+    ensures("tlv_type", h.tlv_type == k)
+    holder_cast_clauses("fs_request", outcome(h.to_fs_request), inst, k == 0)
+    holder_cast_clauses("fs_response", outcome(h.to_fs_response), inst, k == 1)
+    holder_cast_clauses("msg_to_user", outcome(h.to_msg_to_user), inst, k == 2)
+    holder_cast_clauses("fault_handler", outcome(h.to_fault_handler_override), inst, k == 4)
+    holder_cast_clauses("flow_label", outcome(h.to_flow_label), inst, k == 5)
+    holder_cast_clauses("entity_id", outcome(h.to_entity_id), inst, k == 6)
+
+
+@obligation(["C08"], "TlvHolder/generic", verifies=[H + "TlvHolder.to_fs_request", H + "TlvHolder.to_fs_response", H + "TlvHolder.to_msg_to_user",
+                                                    H + "TlvHolder.to_fault_handler_override", H + "TlvHolder.to_flow_label",
+                                                    H + "TlvHolder.to_entity_id"])
+def holder_generic(k: Choice(0, 1, 2, 4, 5, 6), v: BytesLen(0, 255), name: StrLen(100)):
+    """a holder of the generic TLV decoded from the octets of a concrete TLV converts to an equal concrete TLV"""
+    inst = concrete_tlv(k, v, name)
+    raw = inst.pack()
+    h = TlvHolder(CfdpTlv.unpack(raw))
+    ensures("tlv_type", h.tlv_type == k)
+    if k == 0:
+        o = outcome(h.to_fs_request)
+    elif k == 1:
+        o = outcome(h.to_fs_response)
+    elif k == 2:
+        o = outcome(h.to_msg_to_user)
+    elif k == 4:
+        o = outcome(h.to_fault_handler_override)
+    elif k == 5:
+        o = outcome(h.to_flow_label)
+    else:
+        o = outcome(h.to_entity_id)
+    ensures("converted", o.ok)
+    if o.ok:
+        ensures("kind", kind_of(o.value) == kind_of(inst))
+        ensures("same-octets", both(o.value.pack() == raw, o.value.value == inst.value, o.value.tlv_type == k, o.value.packet_len == len(raw)))
+
+
+# ------------------------------------------------------------------------------------------------ status-code helpers
+
+@obligation(["C08"], "map_int_status_code_to_enum", verifies=[T + "map_int_status_code_to_enum"])
+def status_int_to_enum(action: EnumOf(FilestoreActionCode), status: IntRange(0, 15)):
+    """total over every (action code, 4-bit status) pair: the member with that octet value, else INVALID"""
+    o = outcome(map_int_status_code_to_enum, action, status)
+    ensures("total", o.ok)
+    if o.ok:
+        m = outcome(FilestoreResponseStatusCode, action * 16 + status)
+        ensures("kind", kind_of(o.value) == "FilestoreResponseStatusCode")
+        ensures("member-iff-defined", (o.value == action * 16 + status) == m.ok)
+        ensures("else-invalid", implies(not m.ok, o.value == FilestoreResponseStatusCode.INVALID))
+
+
+@obligation(["C08"], "map_enum_status_code", verifies=[T + "map_enum_status_code_to_int", T + "map_enum_status_code_to_action_status_code"])
+def status_enum_to_int(code: EnumOf(FilestoreResponseStatusCode)):
+    o = outcome(map_enum_status_code_to_action_status_code, code)
+    ensures("raises-only", o.ok or o.raised(ValueError))
+    ensures("ok-iff-action-defined", o.ok == both(code >= 0, fs_action_known(code // 16)))
+    if code >= 0:
+        ensures("low-nibble", map_enum_status_code_to_int(code) == code % 16)
+    if o.ok:
+        ensures("pair", both(o.value[0] == code // 16, o.value[1] == code % 16, kind_of(o.value[0]) == "FilestoreActionCode"))
+        ensures("inverse", map_int_status_code_to_enum(o.value[0], o.value[1]) == code)
